@@ -275,8 +275,12 @@ class CodedInputStream {
   void ReadFixedIntegerSlow(T& value) {
     if (buffer_ptr_ == buffer_end_ptr_) {
       FillBuffer();
-      ReadFixedIntegerFastFromArray(value, buffer_ptr_);
-      return;
+      // The refill may have delivered fewer bytes than the value needs
+      // (the stream ends, or is delivered in small pieces).
+      if (RemainingBufferSpace() >= sizeof(value)) {
+        ReadFixedIntegerFastFromArray(value, buffer_ptr_);
+        return;
+      }
     }
 
     uint8_t bytes[sizeof(T)];
@@ -303,8 +307,12 @@ class CodedInputStream {
   void ReadVarIntegerSlow(T& value) {
     if (buffer_ptr_ == buffer_end_ptr_) {
       FillBuffer();
-      ReadVarIntegerFastFromArray(value, buffer_ptr_);
-      return;
+      // The fast path does not check for the end of the buffer, so it may only be
+      // taken if a varint of maximal length is certain to fit in what was delivered.
+      if (RemainingBufferSpace() >= (sizeof(T) <= 4 ? MAX_VARINT32_BYTES : MAX_VARINT64_BYTES)) {
+        ReadVarIntegerFastFromArray(value, buffer_ptr_);
+        return;
+      }
     }
 
     value = 0;
